@@ -4,12 +4,14 @@
 //!   iosim reader --runs N --long M [--seed S] --out summary.json --replay-dir DIR --tag T
 //!   iosim writer --runs N --sweep 0|1 [--seed S] --out summary.json --replay-dir DIR --tag T
 //!   iosim census --side writer|reader --every32 K --wide-blocks B [--seed S] --out F --replay-dir DIR --tag T
+//!   iosim marathon --side reader|writer --mib N [--seed S] --out F --replay-dir DIR --tag T
 //!   iosim replay FILE            exit 1 iff the recorded run still violates (prints the class)
 //!   iosim digest reader|writer --runs N   per-run trace digests (determinism self-test)
 //!
 //! Exit status: 0 = completed (violations, if any, are listed in the summary), 2 = harness error.
 
 mod census;
+mod marathon;
 mod model;
 mod rgen;
 mod rrun;
@@ -69,6 +71,21 @@ fn main() {
                 }
             }
         }
+        "marathon" => {
+            let side = arg(&args, "--side").unwrap_or_else(|| "reader".into());
+            let mib: u64 = arg(&args, "--mib").and_then(|s| s.parse().ok()).unwrap_or(64);
+            let seed: u64 = arg(&args, "--seed").and_then(|s| s.parse().ok()).unwrap_or_else(simcore::verif_seed);
+            let replay_dir = arg(&args, "--replay-dir").unwrap_or_else(|| ".".into());
+            let tag = arg(&args, "--tag").unwrap_or_else(|| "x".into());
+            let text = marathon::run(&side, seed, mib, &replay_dir, &tag).pretty();
+            match arg(&args, "--out") {
+                Some(p) => std::fs::write(&p, text).map(|_| 0).unwrap_or(2),
+                None => {
+                    print!("{}", text);
+                    0
+                }
+            }
+        }
         "replay" => {
             let path = match args.get(2) {
                 Some(p) => p,
@@ -96,6 +113,7 @@ fn main() {
                 Some("iosim-reader") => rrun::replay(rec),
                 Some("iosim-writer") => wrun::replay(rec),
                 Some("iosim-census") => census::replay(rec),
+                Some("iosim-marathon") => marathon::replay(rec),
                 other => {
                     eprintln!("iosim: not an iosim record (engine = {:?})", other);
                     2
